@@ -466,6 +466,9 @@ impl VfsFile for SimFile {
   fn read(&mut self, buf: &mut [u8]) -> io::Result<usize> {
     self.fs.yield_point(Prim::Read, &self.path);
     let ino = self.ino.ok_or_else(|| io::Error::new(io::ErrorKind::Other, "is a directory"))?;
+    if !self.opts.read {
+      return Err(io::Error::new(io::ErrorKind::Other, "bad file descriptor: not open for reading"));
+    }
     let mut c = self.fs.core.lock().unwrap();
     match c.gate(Prim::Read, "read")? {
       Gate::Go => {}
@@ -496,7 +499,7 @@ impl VfsFile for SimFile {
     self.fs.yield_point(Prim::Write, &self.path);
     let ino = self.ino.ok_or_else(|| io::Error::new(io::ErrorKind::Other, "is a directory"))?;
     if !(self.opts.write || self.opts.append) {
-      return Err(io::Error::new(io::ErrorKind::PermissionDenied, "not open for writing"));
+      return Err(io::Error::new(io::ErrorKind::Other, "bad file descriptor: not open for writing"));
     }
     let mut c = self.fs.core.lock().unwrap();
     c.monitor("write", &self.path);
